@@ -87,7 +87,8 @@ class ComplexAngularCentralGaussian(_ProbabilisticModel):
     ):
         if covariance_norm == 'trace':
             cov_trace = np.einsum('...dd', covariance)[..., None, None]
-            covariance /= np.maximum(cov_trace, np.finfo(cov_trace.dtype).tiny)
+            covariance = covariance / np.maximum(
+                cov_trace, np.finfo(cov_trace.dtype).tiny)
         else:
             assert covariance_norm in ['eigenvalue', False]
 
